@@ -107,6 +107,7 @@ DomOf(x, s) ==
   CASE s.dom = "bool" -> {0, 1}
     [] s.dom = "nz" -> IF x.dom = "full" THEN F \ {0} ELSE IF x.dom = "small" THEN {1, 3 % P, P - 1} ELSE {1, P - 2}
     [] s.dom = "lt" -> 0..((IF s.n < P THEN s.n ELSE P) - 1)
+    [] s.dom = "ltpow" -> 0..((IF IPow(x.b, s.n) < P THEN IPow(x.b, s.n) ELSE P) - 1)
     [] OTHER -> IF x.dom = "small" THEN Small ELSE IF x.dom = "tiny" THEN Tiny ELSE F
 ChoiceDom(x, k) ==
   IF k <= NC(x) THEN (IF x.cdom = "small" THEN Small ELSE F)
@@ -138,8 +139,9 @@ UniqMax == IF P <= 5 THEN 4 ELSE IF P <= 7 THEN 3 ELSE 2
 UniqueInv == (Done /\ Len(Pinned(g)) <= UniqMax) => G2s(g, ConstsOf(g, ch), HashOf(g, ch), row)
 
 \* ---------------------------------------------------------------- degree
-\* lines: offsets and directions are affine patterns in the wire index with parameters a, b
-Pattern(n, a, b) == MapN(LAMBDA i : (a * i * i + b * i + a + 2 * b) % P, n)
+\* lines: offsets and directions are fixed pseudo-random patterns in the wire index (an
+\* exponential term, so that no finite difference over the wire index vanishes identically)
+Pattern(n, a, b) == MapN(LAMBDA i : (a * Pow(GEN, (b * i + a) % (P - 1)) + b * i * i + a + 2 * b) % P, n)
 LineParams == {<<1, 2>>, <<3, 5>>, <<6, 1>>, <<2, 7>>}
 InitDeg == /\ g \in Selected
            /\ ch \in LineParams
@@ -153,12 +155,13 @@ DegreeInv ==
   Let(DegVals(g, ch, Degree(g) + 1),
       LAMBDA vals : /\ Len(vals[1]) = NumConstraints(g)
                     /\ \A j \in 1..NumConstraints(g) : DegreeAtMost(vals, j, Degree(g) - DegShift))
-\* the declared degree is reached by some constraint on every line (it is exact, not an over-estimate)
+\* the declared degree is reached by some constraint on some line (it is exact, not an
+\* over-estimate; a 1-bit exponentiation gate has degree 2 but declares the uniform bound 4)
 DegreeExactInv ==
-  \* (a 1-bit exponentiation gate has degree 2 but declares the uniform bound 4)
-  (NumConstraints(g) > 0 /\ Degree(g) > 0 /\ ~(g.kind = "expo" /\ g.n = 1)) =>
-    Let(DegVals(g, ch, Degree(g)),
-        LAMBDA vals : \E j \in 1..NumConstraints(g) : ~DegreeAtMost(vals, j, Degree(g) - 1))
+  (ch = <<1, 2>> /\ NumConstraints(g) > 0 /\ Degree(g) > 0 /\ ~(g.kind = "expo" /\ g.n = 1)) =>
+    \E lp \in LineParams :
+      Let(DegVals(g, lp, Degree(g)),
+          LAMBDA vals : \E j \in 1..NumConstraints(g) : ~DegreeAtMost(vals, j, Degree(g) - 1))
 
 \* ---------------------------------------------------------------- catalogue
 \* the parameterisations the harness instantiates on the real gates (D = 2, Goldilocks)
